@@ -19,7 +19,7 @@ ID = "C08"
 LEVEL = "exploration"
 # a run stuck inside C code (beyond the reach of a Python signal handler) is
 # cut off by a watchdog thread after this many seconds (core._hard_hangs)
-RUN_HARD_TIMEOUT = 60
+RUN_HARD_TIMEOUT = 120
 RULE = ("each run = one curve (named 60% incl. the cofactor-4 curve "
         "SECP112r2 with extra weight; toy 40% incl. cofactor 2/3/4 toys where "
         "every curve point is reachable) and 8-16 deliveries of a public key "
